@@ -91,3 +91,12 @@ Proof.
   - split; [exact (free_chain_hint_inv _ _ _ H0 E)|].
     revert E. vm_compute. intros E. inversion E. eexists. reflexivity.
 Qed.
+
+(** ... and the release as the code does it: the free mark and the hint step are REGENERATED from [free_cluster_chain] (tools/translate.py fails
+    closed on any other shape of its loop); the model's [free_chain] is their fold over the chain *)
+From PyFatV Require Import Proofs.GenChain.
+Theorem C09_release_from_source : forall s c s' cs, free_chain s c = Ok s' -> chain_all s c = Ok cs ->
+  s_fat s' = fold_left (fun f cl => updZ f cl (Gen.free_mark (ft s))) cs (s_fat s) /\
+  s_hint s' = fold_left (fun a cl => Gen.free_hint_step cl a) cs (s_hint s).
+Proof. exact free_chain_gen. Qed.
+Print Assumptions C09_release_from_source.
